@@ -44,14 +44,28 @@ func (s *Server) processQueryLogsAndStats(dctx *dnsContext) (rc resultCode) {
 
 	qt, cl := q.Qtype, q.Qclass
 
-	// Synchronize access to s.queryLog and s.stats so they won't be suddenly
+	// Get s.queryLog and s.stats under the lock so they won't be suddenly
 	// uninitialized while in use.  This can happen after proxy server has been
 	// stopped, but its workers haven't yet exited.
-	s.serverLock.RLock()
-	defer s.serverLock.RUnlock()
+	//
+	// Don't hold the lock while calling them, though.  They call back into the
+	// server, e.g. the query log looks the client up through
+	// [Server.IsBlockedClient], and a read lock taken for the second time
+	// deadlocks with a writer that has started waiting in between.
+	var (
+		queryLog  querylog.QueryLog
+		statsCtx  stats.Interface
+		refuseAny bool
+	)
+	func() {
+		s.serverLock.RLock()
+		defer s.serverLock.RUnlock()
 
-	if s.shouldLog(host, qt, cl, ids) {
-		s.logQuery(dctx, ip, processingTime)
+		queryLog, statsCtx, refuseAny = s.queryLog, s.stats, s.conf.RefuseAny
+	}()
+
+	if shouldLog(queryLog, refuseAny, host, qt, cl, ids) {
+		logQuery(queryLog, dctx, ip, processingTime)
 	} else {
 		log.Debug(
 			"dnsforward: request %s %s %q from %s ignored; not adding to querylog",
@@ -62,8 +76,8 @@ func (s *Server) processQueryLogsAndStats(dctx *dnsContext) (rc resultCode) {
 		)
 	}
 
-	if s.shouldCountStat(host, qt, cl, ids) {
-		s.updateStats(dctx, ipStr, processingTime)
+	if shouldCountStat(statsCtx, host, qt, cl, ids) {
+		updateStats(statsCtx, dctx, ipStr, processingTime)
 	} else {
 		log.Debug(
 			"dnsforward: request %s %s %q from %s ignored; not counting in stats",
@@ -78,27 +92,39 @@ func (s *Server) processQueryLogsAndStats(dctx *dnsContext) (rc resultCode) {
 }
 
 // shouldLog returns true if the query with the given data should be logged in
-// the query log.  s.serverLock is expected to be locked.
-func (s *Server) shouldLog(host string, qt, cl uint16, ids []string) (ok bool) {
-	if qt == dns.TypeANY && s.conf.RefuseAny {
+// the query log.  queryLog may be nil.
+func shouldLog(
+	queryLog querylog.QueryLog,
+	refuseAny bool,
+	host string,
+	qt uint16,
+	cl uint16,
+	ids []string,
+) (ok bool) {
+	if qt == dns.TypeANY && refuseAny {
 		return false
 	}
 
 	// TODO(s.chzhen):  Use dnsforward.dnsContext when it will start containing
 	// persistent client.
-	return s.queryLog != nil && s.queryLog.ShouldLog(host, qt, cl, ids)
+	return queryLog != nil && queryLog.ShouldLog(host, qt, cl, ids)
 }
 
 // shouldCountStat returns true if the query with the given data should be
-// counted in the statistics.  s.serverLock is expected to be locked.
-func (s *Server) shouldCountStat(host string, qt, cl uint16, ids []string) (ok bool) {
+// counted in the statistics.  statsCtx may be nil.
+func shouldCountStat(statsCtx stats.Interface, host string, qt, cl uint16, ids []string) (ok bool) {
 	// TODO(s.chzhen):  Use dnsforward.dnsContext when it will start containing
 	// persistent client.
-	return s.stats != nil && s.stats.ShouldCount(host, qt, cl, ids)
+	return statsCtx != nil && statsCtx.ShouldCount(host, qt, cl, ids)
 }
 
 // logQuery pushes the request details into the query log.
-func (s *Server) logQuery(dctx *dnsContext, ip net.IP, processingTime time.Duration) {
+func logQuery(
+	queryLog querylog.QueryLog,
+	dctx *dnsContext,
+	ip net.IP,
+	processingTime time.Duration,
+) {
 	pctx := dctx.proxyCtx
 
 	p := &querylog.AddParams{
@@ -138,11 +164,16 @@ func (s *Server) logQuery(dctx *dnsContext, ip net.IP, processingTime time.Durat
 		}
 	}
 
-	s.queryLog.Add(p)
+	queryLog.Add(p)
 }
 
 // updateStats writes the request data into statistics.
-func (s *Server) updateStats(dctx *dnsContext, clientIP string, processingTime time.Duration) {
+func updateStats(
+	statsCtx stats.Interface,
+	dctx *dnsContext,
+	clientIP string,
+	processingTime time.Duration,
+) {
 	pctx := dctx.proxyCtx
 
 	var upstreamStats []*proxy.UpstreamStatistics
@@ -179,5 +210,5 @@ func (s *Server) updateStats(dctx *dnsContext, clientIP string, processingTime t
 		e.Result = stats.RFiltered
 	}
 
-	s.stats.Update(e)
+	statsCtx.Update(e)
 }
